@@ -8,7 +8,7 @@ class Leg:
                  checks=(1000, 10000), shards=(1, 16), timeout=(300, 3600), steps=None, env=None,
                  env_quick=None, env_thorough=None, tiers=("quick", "thorough"), fuzz=None, fuzztime=60,
                  app=None, crash_is_violation=True, shrinktime=20, tests=None, replay_attempts=1,
-                 shard_env=None, goarch=None, wrap=None):
+                 shard_env=None, goarch=None, wrap=None, tags=None):
         self.name = name
         self.pkg = pkg
         self.test = test  # -test.run regex
@@ -34,6 +34,7 @@ class Leg:
         self.shard_env = shard_env or []  # list of env dicts, shard s gets entry s % len (a configuration dimension)
         self.goarch = goarch              # cross-compile the test binary for this GOARCH (e.g. "386")
         self.wrap = wrap                  # name of a wrapper in check.WRAPPERS (e.g. "no-tzdata")
+        self.tags = tags                  # go build tags for the harness test binary
 
 
 PROPS = {}
@@ -172,6 +173,7 @@ PROPS["C12"] = {
     "legs": [
         Leg("single-bit", "c12", "^TestSingleBit$", engine="enumerate", rapid=False, shards=(1, 1), tests=["single-bit"]),
         Leg("fault", "c12", "^TestFault$", checks=(8000, 120000), shards=(2, 16), tests=["fault"]),
+        Leg("parallel", "c12", "^TestParallel$", engine="sched", checks=(500, 10000), shards=(2, 16), tests=["parallel"], replay_attempts=5),
     ],
 }
 
@@ -190,6 +192,10 @@ PROPS["C20"] = {
     "min_evals": {"quick": 4098, "thorough": 4098},
     "legs": [
         Leg("types", "c20", "^TestTypes$", engine="enumerate", rapid=False, shards=(1, 1), tests=["types"]),
+        Leg("types-386", "c20", "^TestTypes$", engine="enumerate", rapid=False, goarch="386", shards=(1, 1), tests=["types"]),
+        Leg("types-no-tzdata", "c20", "^TestTypes$", engine="enumerate", rapid=False, wrap="no-tzdata", env={"ZONEINFO": ""}, shards=(1, 1), tests=["types"]),
+        Leg("parallel", "c20", "^TestParallel$", engine="sched", checks=(300, 5000), shards=(2, 16), tests=["parallel"], replay_attempts=5),
+        Leg("parallel-race", "c20", "^TestParallel$", engine="sched", race=True, checks=(100, 1500), shards=(2, 8), tests=["parallel"], replay_attempts=5),
     ],
 }
 
@@ -275,6 +281,8 @@ PROPS["C06"] = {
     "min_evals": {"quick": 5000, "thorough": 300000},
     "legs": [
         Leg("history", "c06", "^TestHistory$", checks=(2000, 150000), shards=(6, 18), tests=["history"], shard_env=[{"TZ": "UTC"}, {"TZ": "Europe/London"}, {"TZ": "America/New_York"}, {"TZ": "Asia/Kolkata"}, {"TZ": "Australia/Lord_Howe"}, {"TZ": "Europe/Moscow"}]),
+        Leg("history-386", "c06", "^TestHistory$", goarch="386", checks=(2000, 40000), shards=(1, 8), tests=["history"]),
+        Leg("history-no-tzdata", "c06", "^TestHistory$", wrap="no-tzdata", tags="notzdata", env={"ZONEINFO": ""}, checks=(2000, 40000), shards=(1, 8), tests=["history"]),
     ],
 }
 
@@ -291,6 +299,8 @@ PROPS["C17"] = {
     "min_evals": {"quick": 5000, "thorough": 300000},
     "legs": [
         Leg("history", "c17", "^TestHistory$", checks=(2000, 150000), shards=(6, 18), tests=["history"], shard_env=[{"TZ": "UTC"}, {"TZ": "Europe/London"}, {"TZ": "America/New_York"}, {"TZ": "Asia/Kolkata"}, {"TZ": "Australia/Lord_Howe"}, {"TZ": "Europe/Moscow"}]),
+        Leg("history-386", "c17", "^TestHistory$", goarch="386", checks=(2000, 40000), shards=(1, 8), tests=["history"]),
+        Leg("history-no-tzdata", "c17", "^TestHistory$", wrap="no-tzdata", tags="notzdata", env={"ZONEINFO": ""}, checks=(2000, 40000), shards=(1, 8), tests=["history"]),
     ],
 }
 
@@ -374,6 +384,9 @@ PROPS["C15"] = {
     "min_evals": {"quick": 1500, "thorough": 100000},
     "legs": [
         Leg("history", "c15", "^TestHistory$", checks=(1000, 12000), shards=(2, 16), tests=["history"]),
+        Leg("history-tz", "c15", "^TestHistory$", checks=(100, 2000), shards=(6, 12), tests=["history"], shard_env=[{"TZ": "UTC"}, {"TZ": "Europe/London"}, {"TZ": "America/New_York"}, {"TZ": "Asia/Kolkata"}, {"TZ": "Australia/Lord_Howe"}, {"TZ": "Europe/Moscow"}]),
+        Leg("history-no-tzdata", "c15", "^TestHistory$", wrap="no-tzdata", env={"ZONEINFO": ""}, checks=(300, 4000), shards=(1, 8), tests=["history"]),
+        Leg("history-386", "c15", "^TestHistory$", goarch="386", checks=(300, 4000), shards=(1, 8), tests=["history"]),
         Leg("history-race", "c15", "^TestHistory$", engine="sched", race=True, checks=(200, 3000), shards=(2, 16), tests=["history"]),
     ],
 }
@@ -429,7 +442,7 @@ PROPS["C16"] = {
     "assumptions": ["the binary is built from the working tree with go build ./apps/rtcmlogger", "the record file is rtcmlogger.<date>.rtcm in message_log_directory (files concatenated in name order if the run crosses midnight)", "Go toolchain, rapid v1.3.0"],
     "min_evals": {"quick": 300, "thorough": 8000},
     "legs": [
-        Leg("run", "c16", "^TestRun$", engine="process", app=["rtcmlogger"], checks=(30, 4000), shards=(16, 16), tests=["run"], replay_attempts=20),
+        Leg("run", "c16", "^TestRun$", engine="process", app=["rtcmlogger"], checks=(30, 4000), shards=(16, 16), tests=["run"], replay_attempts=20, shard_env=[{"TZ": "UTC"}, {"TZ": "Europe/London"}, {"TZ": "America/New_York"}, {"TZ": "Asia/Kolkata"}, {"TZ": "Australia/Lord_Howe"}, {"TZ": "Europe/Moscow"}]),
         Leg("run-instrumented", "c16", "^TestRun$", engine="process+sched", app=["rtcmlogger"], instrument=["apps/rtcmlogger/main.go"],
             env={"VERIF_INSTRUMENTED": "1"}, checks=(8, 1500), shards=(16, 16), tests=["run"], replay_attempts=20),
     ],
@@ -452,6 +465,7 @@ PROPS["C19"] = {
     "min_evals": {"quick": 2000, "thorough": 40000},
     "legs": [
         Leg("report", "c19", "^TestReport$", checks=(2000, 100000), shards=(2, 16), tests=["report"]),
+        Leg("long-idle", "c19", "^TestLongIdle$", engine="process", app=["proxy"], checks=(1, 2), shards=(2, 4), tests=["long-idle"], replay_attempts=2),
         Leg("relay", "c19", "^TestRelay$", engine="process", app=["proxy"], checks=(40, 5000), shards=(8, 16), tests=["relay"], replay_attempts=3),
     ],
 }
